@@ -239,7 +239,7 @@ _EXTRA = {
     "C08": " Tables carry default, offset, shuffled, volume-valued and string row indexes, and each case fills the same supplied set a second time with the columns in another order; an integer-typed whole-number column next to decimal columns, "
            "and components that keep one sign and vanish at one end of the tabulated range (filled with the default and with larger drop tolerances), are part of the data.",
     "C09": " Row-index variants and the command-line flags --ignore-rank / --ignore-residuals are part of the presentation and refusal sweeps; drop-tolerance tables include components that cross the tolerance from one volume to the next (kept, entries intact).",
-    "C11": " Sampled-volume counts 4-12 including 7, 9, 10; all cases of one (method, count, order) run one after the other in one process on different volume sets, each exact case followed by a volume set with the same end volumes and count but other interior volumes; the sampled range in ln V runs over 0.3, 0.2, 0.14, 0.1 and V_max up to 3000 bohr^3 (conditioning of real input files).",
+    "C11": " Sampled-volume counts 4-12 including 7, 9, 10; all cases of one (method, count, order) run one after the other in one process on different volume sets, each exact case followed by a volume set with the same end volumes and count but other interior volumes; the sampled range in ln V runs over 0.3, 0.2, 0.14, 0.1 and V_max up to 3000 bohr^3 (conditioning of real input files). The tolerance follows the conditioning of the problem, measured with all volumes divided by their geometric mean; the result must not depend on that change of unit.",
     "C12": " Every third configuration is followed, in the same process and on the same data, by a run on a shifted temperature grid of identical shape; c^S(0) = c^T(0) and the continuity of c^S towards T = 0 are judged as well; a large-grid class (1000-2000 temperature rows from T=0 in steps of 0.25-1 K, 40-280 MB per (T,V,q,mode) array) is part of both tiers; a fifth of the data sets list a q-point of weight zero; EoS orders 2-5 and non-cubic E(V) as in C05; the output sampling intervals are given as the grid steps, left out (packaged defaults) or given as multiples.",
     "C13": " Two thirds of the data sets carry generic (non power-law) spectra so that the choice of interpolation nodes matters; averages are compared where the stiffness is well "
            "conditioned and adiabatic values where the rounding uncertainty of the QHA heat capacity (4 eps |F| T / DT^2) is below 1e-7 of C_V.",
